@@ -187,7 +187,7 @@ func c17PerTransfer(r *R) {
 	}
 	// the channel-subscriptions fan-in is itself a global subscriber
 	ncs := r.fn("C17.3", "channelsubscriptions", "", "NewChannelSubscriptions")
-	if s := r.one("C17.3", ncs, "(channelsubscriptions.SubscriptionAPI).SubscribeToEvents"); s != nil {
+	if s := r.one("C17.3", ncs, "(channelsubscriptions.SubscriptionAPI).SubscribeToEvents"); s != nil && sub != nil {
 		got := r.dOf(s.(ssa.Instruction)).Of(s.Common().Args[0])
 		r.c.Check(strings.HasSuffix(got, ".subscriber$bound"), "C17.3", "fan-in", r.p.InstrPos(s), "subscribed to all events", "NewChannelSubscriptions subscribes "+got)
 	}
